@@ -166,6 +166,36 @@ def corrupt_interior(rng, data: bytes):
     return ber.encode(top)
 
 
+def reencode_lenforms(rng, data: bytes):
+    """same TLV tree, other (valid) length encodings: long forms with leading zeros on random nodes, outer one included"""
+    try:
+        top = ber.parse(data)[0]
+    except Exception:  # noqa: BLE001
+        return None
+    nodes = list(top.walk())
+    for n in rng.sample(nodes, min(len(nodes), rng.choice([1, 1, 2, 3, len(nodes)]))):
+        n.len_form = rng.choice([1, 2, 4, 4, 5])
+    return ber.encode(top)
+
+
+BAD_UTF8 = [b"\xff", b"\xe9", b"\xc3\x28", b"\xed\xa0\x80", b"\xf8\x88\x80\x80\x80", b"\xc0\xaf", b"a\x80"]
+
+
+def corrupt_text(rng, data: bytes):
+    """put octets that are not UTF-8 into one primitive element (lengths stay consistent)"""
+    try:
+        top = ber.parse(data)[0]
+    except Exception:  # noqa: BLE001
+        return None
+    prims = [n for n in top.walk() if n.kids is None and not n.cons]
+    if not prims:
+        return None
+    n = rng.choice(prims)
+    bad = rng.choice(BAD_UTF8)
+    n.content = rng.choice([bad, n.content + bad, bad + n.content])
+    return ber.encode(top)
+
+
 def corrupt_bytes(rng, data: bytes):
     """single-octet / structural corruption anywhere, outer header included"""
     b = bytearray(data)
@@ -196,7 +226,8 @@ def nesting_bomb(kind: str, depth: int) -> bytes:
     return tlv(0x30, tlv(2, b"\x05") + tlv(0x63, sr))
 
 
-FIXED_BAD = ["300402004200", "30050201016005", "0500", "3080", "30", "3081", "308400000005", "1f", "1f80", "1f2801", "ff",
+FIXED_BAD = ["308100", "30820000", "308400000000", "3000", "30050201014200", "3006020101428100", "300802010142840000" + "0000", "300602810101" + "4200",
+             "300402004200", "30050201016005", "0500", "3080", "30", "3081", "308400000005", "1f", "1f80", "1f2801", "ff",
              "3005020100ff00", "30060201017f0100", "300c02010163070400" + "0a0100" + "ff", "3003020101", "30020500",
              "300702010177020500", "3005020101620000", "30 0a 02 01 01 63 05 04 00 0a 01 09".replace(" ", ""),
              "30 1d 02 01 01 42 00 a0 16 30 14 04 12 31 2e 32 2e 38 34 30 2e 31 31 33 35 35 36 2e 31 2e 34 2e 33 31".replace(" ", "")]
